@@ -269,6 +269,10 @@ Proof.
   - pose proof (advance_down ADVANCE_FUEL s (now (mm s) + d) D Gs) as (A & B & C). rewrite A. auto.
   - rewrite (request_after_shutdown s q r mt observe D2). cbn [fst snd]. split; [destruct observe; reflexivity|auto].
   - unfold client_cancel. rewrite D2. cbn. destruct s; auto.
+  - cbn. split; [reflexivity|]. split; [unfold Down; cbn; repeat split; assumption|exact Gs].
+  - destruct (find _ (resolving (tm s))) as [[[[q0 r] mt] ob]|]; [|cbn; auto].
+    rewrite request_after_shutdown by exact D2. cbn [fst snd]. split; [destruct ob; reflexivity|].
+    split; [unfold Down; cbn; repeat split; assumption|exact Gs].
   - unfold handler_respond. rewrite D3. cbn. auto.
   - unfold handler_respond. rewrite D3. cbn. auto.
   - unfold dispatch_error. rewrite D1. cbn. auto.
@@ -439,7 +443,7 @@ Proof.
   cbn [fst mm] in *. exact (FR_trans _ _ _ H1 H2).
 Qed.
 
-Lemma FR_handler_respond s h code last obs : FR (mm s) (mm (fst (handler_respond s h code last obs))).
+Lemma FR_handler_respond s h code last obs lg : FR (mm s) (mm (fst (handler_respond s h code last obs lg))).
 Proof.
   unfold handler_respond. destruct (incoming (tm s)) as [l|]; [|apply FR_refl].
   destruct (find (fun i => i_h i =? h) l) as [i|]; [|apply FR_refl].
@@ -529,6 +533,11 @@ Proof.
     match goal with |- context [send_message ?a ?b ?c ?d ?e ?f ?g ?h] => pose proof (FR_send_message a b c d e f g h) as H; destruct (send_message a b c d e f g h) end.
     cbn [fst mm] in *. eapply G_FR; eassumption.
   - destruct (client_cancel (tm s) q). exact Gs.
+  - exact Gs.
+  - destruct (find _ (resolving (tm s))) as [[[[q0 r] mt] ob]|]; [|exact Gs].
+    unfold tm_request. cbn [tm mm]. destruct (outgoing _); [|exact Gs]. destruct (next_token _) as [tm1 tok].
+    match goal with |- context [send_message ?a ?b ?c ?d ?e ?f ?g ?h] => pose proof (FR_send_message a b c d e f g h) as H; destruct (send_message a b c d e f g h) end.
+    cbn [fst mm] in *. eapply G_FR; eassumption.
   - eapply G_FR; [exact Gs|apply FR_handler_respond].
   - eapply G_FR; [exact Gs|apply FR_handler_respond].
   - eapply G_FR; [exact Gs|apply FR_dispatch_error].
@@ -642,7 +651,7 @@ Definition busy_history : list event :=
     ClientRequest 3 2 NON false;                                                             (* awaiting a response, no exchange *)
     ClientRequest 4 1 CON true;                                                              (* backlog behind request 2 *)
     Advance 100000;                                                                          (* empty ACK for handler 0 *)
-    HandlerRespond 0 69 false (Some 1);                                                      (* separate CON response: exchange with a server-side monitor; queued behind request 2 *)
+    HandlerRespond 0 69 false (Some 1) false;                                                      (* separate CON response: exchange with a server-side monitor; queued behind request 2 *)
     Recv {| m_type := CON; m_code := GET; m_mid := 101; m_token := 9; m_obs := None; m_remote := 3 |} ].  (* handler 2, empty-ACK timer pending *)
 Definition busy_state : st := fst (run (init 2000000 0 0) busy_history).
 Lemma busy_state_facts :
